@@ -16,13 +16,16 @@ SPEC = {
     "modules": ["HC.Props.C06"],
     "extracted": ["Guards", "Consts", "H11Tables"],
     "technique": "Lean 4 invariants over all op sequences of an executable model of H11Protocol composed with the h11 connection-state machine (tables extracted from the installed library): a live stream is never overwritten, recycle iff both sides DONE and not terminated, close announced, nothing served after Closed; tied by op-by-op differential execution against the real H11Protocol with library taps, plus end-to-end pipelines on both workers",
-    "level_text": "Proved in Lean for every sequence of library events, application sends and closes (any pipeline length, any interleaving, every keep_alive_max_requests): a new request is only ever accepted when no stream is live (so requests are served strictly one at a time and a later request's bytes cannot reach an earlier instance, the parser being parked between them); the connection is recycled exactly when request and response are both complete, neither side asked to close and shutdown has not begun - otherwise Closed is sent and no further request is accepted; the response head announces close whenever the cause is known when the head is sent (client Connection: close, HTTP/1.0, per-connection maximum reached - extracted comparator -, server-generated error responses).  Tie: thousands of generated pipelines (1-6 requests; content-length, chunked, HEAD, Expect, HTTP/1.0, close; every segmentation class; applications answering before/while/after/never reading the body, crashing at every point) driven through the real H11Protocol with taps on h11.Connection and compared with the model after every op (outputs, h11 our/their state, reader parked?, current stream, request counter); end-to-end on both workers with an independent client parser.",
+    "level_text": "Proved in Lean for every sequence of library events, application sends and closes (any pipeline length, any interleaving, every keep_alive_max_requests): a new request is only ever accepted when no stream is live (so requests are served strictly one at a time and a later request's bytes cannot reach an earlier instance, the parser being parked between them); the connection is recycled exactly when request and response are both complete, neither side asked to close and shutdown has not begun - otherwise Closed is sent and no further request is accepted; the response head announces close whenever the cause is known when the head is sent (client Connection: close, HTTP/1.0, per-connection maximum reached - extracted comparator -, server-generated error responses); once either side asked to close - the client, the request maximum, or the APPLICATION with its own `connection: close` response header, which HTTPStream hands to h11 unchanged (extracted) - h11's keep-alive flag is off for good and no later stream end recycles the connection (asked_to_close_never_reused, over arbitrary further ops); `request_complete` only ever refers to the request in progress (reset at each Request, extracted), so a message that goes wrong INSIDE its body is never ignored, on a reused connection as on a fresh one: Closed is sent, preceded by the hinted error response with `connection: close` while h11's writer is IDLE / SEND_RESPONSE (malformed_body_closes).  Tie: a deterministic corpus (reused connection + malformed chunk / truncated body / garbage head in every segmentation class and application timing; application-requested close followed by further requests) and thousands of generated pipelines (1-6 requests; content-length, chunked, HEAD, Expect, HTTP/1.0, close, malformed / aborted messages at any position, application-requested close; every segmentation class; applications answering before/while/after/never reading the body, crashing at every point) driven through the real H11Protocol with taps on h11.Connection and compared with the model after every op (outputs, h11 our/their state, reader parked?, current stream, request counter); end-to-end on both workers with an independent client parser.",
     "level_note": "Trusted: Lean kernel; model HC/Proto/H11.lean + stream models; H11M is a transcription of h11/_state.py with its two tables extracted from the installed library and is *assumed* for the theorems (sampled: our/their state compared after every op); h11's byte-level parser and serialiser are library behaviour (events are inputs, wire bytes parsed by an independent h11 client).  The announcement of close is required only when the cause precedes the head (an application that answers without reading the body cannot have been announced).",
-    "rule": "pipelines x request kinds x segmentation x app timing x keep_alive_max; distinct = (pipeline length, request kinds, split class, app timing classes, max); non-trivial = at least two requests or a connection-close cause",
+    "rule": "pipelines x request kinds (incl. malformed / aborted) x segmentation x app timing x app-requested close x keep_alive_max; distinct = (pipeline length, request kinds, split class, app timing classes, max, app close); non-trivial = at least two requests, a connection-close cause or a malformed message",
     "trusted": ["h11 0.16 byte parser/serialiser", "asyncio/trio schedulers in the end-to-end layer"],
     "partial": ["F26 (bytes after a Connection: close request in the same read → 400) if listed in known_findings.json"],
     "assumptions": ["direct drive feeds no read while the reader is parked, as TCPServer does (it awaits protocol.handle)"],
 }
+
+
+CLOSE_VALUES = ["close", "Close", "keep-alive, close"]
 
 
 def gen_case(ctx: Ctx, idx: int) -> dict:
@@ -31,10 +34,56 @@ def gen_case(ctx: Ctx, idx: int) -> dict:
     opts = {"big": rng.random() < 0.3, "weights": [6, 4, 4, 2, 2, 1, 2, 0, 0, 0, 0]}
     reqs = [HS.gen_request(rng, i, opts) for i in range(n)]
     apps = [HS.gen_app(rng, r, {}) for r in reqs]
+    eof = rng.random() < 0.8
+    # "an aborted or malformed message": a later (or the only) request goes wrong in its body or is no request at all
+    f = rng.random()
+    if f < 0.14:
+        j = rng.randrange(n) if rng.random() < 0.3 else n - 1
+        reqs[j] = HS.make_malformed(rng, reqs[j], "bad_chunk", j)
+    elif f < 0.18:
+        reqs[-1] = HS.make_malformed(rng, reqs[-1], "truncated", n - 1)
+        eof = True
+    elif f < 0.22:
+        reqs[-1] = HS.make_malformed(rng, reqs[-1], "bad_head", n - 1)
+    # "neither side asked to close": the APPLICATION asks, with its own Connection header on the response
+    if rng.random() < 0.15:
+        k = rng.randrange(n)
+        apps[k] = {**apps[k], "conn_close": rng.choice(CLOSE_VALUES), "conn_close_name": rng.choice(["connection", "Connection"])}
     data_len = sum(len(HS.request_bytes(r)) for r in reqs)
     split = rng.choice(["one", "one", "random", "random", "bytewise" if data_len < 600 else "random", "per_request"])
     return {"family": "pipeline", "requests": reqs, "apps": apps, "split": split, "keep_alive_max": rng.choice([1, 2, 3, 1000, 1000]),
-            "seed": rng.randrange(1 << 30), "eof": rng.random() < 0.8}
+            "seed": rng.randrange(1 << 30), "eof": eof}
+
+
+def corpus() -> List[dict]:
+    """deterministic sessions every run starts with: a REUSED connection whose later request is malformed / aborted, and an
+    application that asks to close with its own Connection header, each in every segmentation class and application timing"""
+    import random
+    rng = random.Random(606)
+    plain = {"kind": "plain", "method": "GET", "target": "/a", "headers": [["Host", "x"]], "version": "1.1", "body": "", "chunks": None}
+    post = {"kind": "body_chunked", "method": "POST", "target": "/b", "headers": [["Host", "x"]], "version": "1.1", "body": "", "chunks": ["abc"]}
+    ok = {"when": "after_body", "status": 200, "chunks": ["ok"], "content_length": True, "crash": None, "ws": "close"}
+    cases: List[dict] = []
+
+    def add(reqs, apps, split, eof=True, kmax=1000):
+        cases.append({"family": "pipeline", "corpus": True, "requests": reqs, "apps": apps, "split": split, "keep_alive_max": kmax,
+                      "seed": rng.randrange(1 << 30), "eof": eof})
+
+    for split in ("per_request", "one", "bytewise", "random"):
+        for when in ("after_body", "eager", "mid", "never_read"):
+            for how, first in (("bad_chunk", plain), ("bad_chunk", post), ("truncated", plain), ("bad_head", post)):
+                if when != "after_body" and (split in ("bytewise", "random") or first is post):
+                    continue
+                bad = HS.make_malformed(rng, post, how, 1)
+                add([first, bad], [ok, {**ok, "when": when}], split)
+        bad = HS.make_malformed(rng, post, "bad_chunk", 2)
+        add([plain, post, bad, plain], [ok, ok, {**ok, "status": 201}, ok], split)
+        add([HS.make_malformed(rng, post, "bad_chunk", 0), plain], [ok, ok], split)
+        for value in CLOSE_VALUES:
+            for when in ("after_body", "eager"):
+                add([post, plain, plain], [{**ok, "when": when, "conn_close": value}, ok, ok], split)
+        add([plain, post, plain], [ok, {**ok, "conn_close": "close", "conn_close_name": "Connection", "content_length": False}, ok], split)
+    return cases
 
 
 def _reads(case: dict, rng) -> List[bytes]:
@@ -66,19 +115,45 @@ def check_direct(ctx: Ctx, cases: List[dict]) -> None:
         for a in case["apps"]:
             ctx.count("app.when", a["when"])
             ctx.count("app.crash", a["crash"])
-        if len(kinds) > 1 or any(_closes_after(r) for r in case["requests"]) or case["keep_alive_max"] <= len(kinds):
-            ctx.distinct([kinds, case["split"], [a["when"] for a in case["apps"]], [a["crash"] for a in case["apps"]], case["keep_alive_max"]])
+        if (len(kinds) > 1 or any(_closes_after(r) for r in case["requests"]) or case["keep_alive_max"] <= len(kinds)
+                or any(a.get("conn_close") for a in case["apps"]) or any(r.get("malformed") for r in case["requests"])):
+            ctx.distinct([kinds, case["split"], [a["when"] for a in case["apps"]], [a["crash"] for a in case["apps"]], case["keep_alive_max"],
+                          [bool(a.get("conn_close")) for a in case["apps"]]])
         ctx.sample({"family": "pipeline", "kinds": kinds, "split": case["split"], "keep_alive_max": case["keep_alive_max"],
                     "apps": [[a["when"], a["crash"]] for a in case["apps"]]}, cap=3)
         groups = HS.compare_with_model(ctx, _short(case), cfg, mops, obs, lib)
-        monitor(ctx, case, [o for o in obs if o is not None])
+        for r in case["requests"]:
+            if r.get("malformed"):
+                ctx.count("request.malformed", r["kind"])
+        for a in case["apps"]:
+            if a.get("conn_close"):
+                ctx.count("app.conn_close", a["conn_close"])
+        monitor(ctx, case, [o for o in obs if o is not None], policy)
 
 
 def _short(case: dict) -> dict:
     return case
 
 
-def monitor(ctx: Ctx, case: dict, obs: List[dict]) -> None:
+def _app_closes(a: dict) -> bool:
+    return "close" in [t.strip() for t in (a.get("conn_close") or "").lower().split(",")]
+
+
+def _is_app_response(resp: dict, a: dict) -> bool:
+    """the response on the wire is the one the application produced (it carries the application's own header)"""
+    return resp["status"] == a["status"] and any(n.lower() == "x-app" for n, v in resp["headers"])
+
+
+def _announces_close(resp: dict) -> bool:
+    conn = [v.lower() for n, v in resp["headers"] if n.lower() == "connection"]
+    return any("close" in [t.strip() for t in v.split(",")] for v in conn)
+
+
+def _first_malformed(reqs: List[dict]) -> Optional[int]:
+    return next((i for i, r in enumerate(reqs) if r.get("malformed")), None)
+
+
+def monitor(ctx: Ctx, case: dict, obs: List[dict], policy=None) -> None:
     flat: List[list] = []
     for o in obs:
         flat += o["outs"]
@@ -104,6 +179,8 @@ def monitor(ctx: Ctx, case: dict, obs: List[dict]) -> None:
         finals = [e for e in flat if e[0] == "put" and e[1] == oid and e[2][0] == "http.request" and e[2][2] is False]
         if not body.startswith(got) or len(finals) > 1 or (finals and got != body):
             ctx.violation("body_leak_or_loss", case, {"k": k, "got": len(got), "want": len(body)}, sig)
+        if finals and reqs[k].get("malformed"):
+            ctx.violation("malformed_body_completed", case, {"k": k}, sig)      # a body that never ended well is not reported complete
     # M6: nothing is started after the protocol asked to close
     closed_at = next((i for i, e in enumerate(flat) if e[0] == "upClosed"), None)
     if closed_at is not None and any(i > closed_at for i in spawns):
@@ -121,14 +198,17 @@ def monitor(ctx: Ctx, case: dict, obs: List[dict]) -> None:
             break
         r, a = reqs[k], case["apps"][k % len(case["apps"])]
         kar = k + 1
-        must_announce = _closes_after(r) or kar >= case["keep_alive_max"]
-        conn = [v.lower() for n, v in resp["headers"] if n.lower() == "connection"]
-        announced = any("close" in [t.strip() for t in v.split(",")] for v in conn)
+        # the server side asks to close when the application's own response head says so
+        app_asks = _app_closes(a) and resp["status"] == a["status"] and a["crash"] in (None, "after_start", "after_first_chunk") and any(
+            e[0] == "libSend" and e[1][0] == "response" and e[1][1] == a["status"] for e in flat)
+        must_announce = _closes_after(r) or kar >= case["keep_alive_max"] or app_asks
+        announced = _announces_close(resp)
         # the request must have been read completely for the client-side causes to be known (they are in the head: always known)
         if must_announce and not announced and resp["status"] != 101:
-            ctx.violation("close_not_announced", case, {"k": k, "headers": resp["headers"]}, {**sig, "cause": "client" if _closes_after(r) else "max"})
+            ctx.violation("close_not_announced", case, {"k": k, "headers": resp["headers"]},
+                          {**sig, "cause": "client" if _closes_after(r) else "max" if kar >= case["keep_alive_max"] else "app"})
         # the response the application completed is the response the client gets
-        if a["crash"] is None and resp["complete"] and r["kind"] != "ws" and resp["status"] != a["status"] and any(
+        if a["crash"] is None and resp["complete"] and r["kind"] != "ws" and not r.get("malformed") and resp["status"] != a["status"] and any(
                 e[0] == "libSend" and e[1][0] == "response" and e[1][1] == a["status"] for e in flat):
             after = [x["kind"] for x in reqs[k + 1:]]
             ctx.violation("response_replaced", case, {"k": k, "got": resp["status"], "app": a["status"]},
@@ -136,6 +216,26 @@ def monitor(ctx: Ctx, case: dict, obs: List[dict]) -> None:
         # M4: reuse iff
         if resp["complete"] and must_announce and k + 1 < len(spawns):
             ctx.violation("reused_after_close_cause", case, {"k": k}, sig)
+        # ... and the server closes after it (the session ran to its end: every application finished)
+        if resp["complete"] and must_announce and closed_at is None and policy is not None and policy.sent_closed and resp["status"] != 101:
+            ctx.violation("not_closed_after_close_cause", case, {"k": k}, sig)
+    # M7: an aborted or malformed message: close announced on the response (if the server still owes one), closed, nothing further served
+    j = _first_malformed(reqs)
+    if j is not None and policy is not None:
+        in_body = reqs[j]["malformed"] == "body"
+        consumed = not policy.reads and not policy.dropped and (reqs[j]["kind"] != "truncated" or policy.sent_eof)
+        # the parser got as far as request j: the connection was recycled j times (and request j's head was accepted)
+        reached = sum(1 for e in flat if e == ["startNextCycle", True]) >= j and (len(spawns) > j or not in_body)
+        msig = {**sig, "malformed": reqs[j]["kind"], "first": j == 0}
+        if len(spawns) > j + (1 if in_body else 0):
+            ctx.violation("served_after_malformed", case, {"j": j, "spawns": len(spawns)}, msig)
+        if consumed and reached and policy.sent_closed:
+            if closed_at is None:
+                ctx.violation("malformed_not_closed", case, {"j": j}, msig)
+            if len(finals) <= j:
+                ctx.violation("malformed_no_response", case, {"j": j, "responses": [x["status"] for x in finals]}, msig)
+            elif not _is_app_response(finals[j], case["apps"][j % len(case["apps"])]) and finals[j]["status"] >= 400 and not _announces_close(finals[j]):
+                ctx.violation("close_not_announced", case, {"k": j, "headers": finals[j]["headers"]}, {**sig, "cause": "malformed"})
 
 
 def check_e2e(ctx: Ctx, cases: List[dict]) -> None:
@@ -187,12 +287,54 @@ def check_e2e(ctx: Ctx, cases: List[dict]) -> None:
                         ctx.violation("body_leak_or_loss", {**case, "worker": worker}, {"k": k, "got": len(got), "want": len(body)}, sig)
             if len(res["apps"]) > len(reqs):
                 ctx.violation("phantom_request", {**case, "worker": worker}, len(res["apps"]), sig)
+            # an aborted or malformed message / a close asked for by the application: nothing further is served, the server closes
+            wcase = {**case, "worker": worker}
+            j = _first_malformed(reqs)
+            if j is not None:
+                in_body = reqs[j]["malformed"] == "body"
+                msig = {**sig, "malformed": reqs[j]["kind"], "first": j == 0}
+                if len(res["apps"]) > j + (1 if in_body else 0):
+                    ctx.violation("served_after_malformed", wcase, {"j": j, "apps": len(res["apps"])}, msig)
+                if in_body and len(res["apps"]) > j:
+                    # request j's head was accepted, so its body went wrong under the server's eyes (at once for a bad chunk,
+                    # at the client's EOF - 1 s after the last byte - for a body that ends early)
+                    if res["closed_at"] is None or (reqs[j]["kind"] == "bad_chunk" and res["closed_at"] >= 1000):
+                        ctx.violation("malformed_not_closed", wcase, {"j": j, "closed_at": res["closed_at"]}, msig)
+                    # the server owes the 400 itself unless the application had begun its own response (cut short by the close:
+                    # on trio possibly before its first byte was written)
+                    owed = not any(x[1] == "http.response.body" and x[2] == "ok" for x in res["apps"][j]["send"])
+                    if len(finals) <= j and owed:
+                        ctx.violation("malformed_no_response", wcase, {"j": j, "responses": [x["status"] for x in finals]}, msig)
+                    elif len(finals) <= j:
+                        ctx.count("e2e.malformed.response_cut", worker)
+                    elif not _is_app_response(finals[j], case["apps"][j % len(case["apps"])]) and finals[j]["status"] >= 400 and not _announces_close(finals[j]):
+                        ctx.violation("close_not_announced", wcase, {"k": j, "headers": finals[j]["headers"]}, {**sig, "cause": "malformed"})
+            for k, resp in enumerate(finals[:len(reqs)]):
+                a = case["apps"][k % len(case["apps"])]
+                if _app_closes(a) and a["crash"] is None and _is_app_response(resp, a) and resp["complete"]:
+                    if not _announces_close(resp):
+                        ctx.violation("close_not_announced", wcase, {"k": k, "headers": resp["headers"]}, {**sig, "cause": "app"})
+                    if len(res["apps"]) > k + 1:
+                        ctx.violation("reused_after_close_cause", wcase, {"k": k, "apps": len(res["apps"])}, sig)
+                    if res["closed_at"] is None or res["closed_at"] >= 1000:
+                        ctx.violation("not_closed_after_close_cause", wcase, {"k": k, "closed_at": res["closed_at"]}, sig)
 
 
 def run(ctx: Ctx) -> None:
+    fixed = corpus()
+    for c in fixed:
+        for r in c["requests"]:
+            if r.get("malformed") and not HS.malformed_is_rejected(r):
+                raise RuntimeError(f"corpus request is not malformed for h11: {r}")
     cases = [gen_case(ctx, i) for i in range(ctx.budget(500, 20000))]
-    check_direct(ctx, cases)
-    check_e2e(ctx, cases[: ctx.budget(60, 1500)])
+    for c in cases:
+        for r in c["requests"]:
+            if r.get("malformed"):
+                assert HS.malformed_is_rejected(r), r
+    ctx.count("corpus.sessions", len(fixed))
+    check_direct(ctx, fixed + cases)
+    e2e_fixed = [c for c in fixed if c["split"] in ("per_request", "one")]
+    check_e2e(ctx, e2e_fixed[: ctx.budget(24, 200)] + cases[: ctx.budget(60, 1500)])
 
 
 def replay(ctx: Ctx, case: dict) -> None:
